@@ -16,7 +16,7 @@ Definition C08_nested_full : Prop :=
    union's first accepting member forwards the same flags as the value's own class (no D8b) *)
 Theorem C08_nested_partial :
   forall (ct: list cls) (n: node) (cid: nat) (k: kwv),
-    ok_h ct n [cid] root_flags k None = true -> to_dict_h ct false n cid k = to_dict_h ct true n cid k.
+    ok_h ct true n [cid] root_flags k None = true -> to_dict_h ct false n cid k = to_dict_h ct true n cid k.
 Proof. exact nested_partial. Qed.
 Print Assumptions C08_nested_partial.
 
@@ -36,9 +36,9 @@ Print Assumptions C08_forwarded_exactly.
    outer flag set and outer run-time keyword values (pd: default dialect handed down by the
    compiling builder, = None under a mixin root by K14 / pass_dd) *)
 Theorem C08_no_leak :
-  forall (ct: list cls) (spec: bool) (cid: nat) (ch: list node) (outer outer': flags) (a a': kwv) (pd: option ns),
+  forall (ct: list cls) (nailed spec: bool) (cid: nat) (ch: list node) (outer outer': flags) (a a': kwv) (pd: option ns),
     flags_c ct cid = no_flags ->
-    pack_h ct spec (NObj cid ch) [cid] outer a pd = pack_h ct spec (NObj cid ch) [cid] outer' a' pd.
+    pack_h ct nailed spec (NObj cid ch) [cid] outer a pd = pack_h ct nailed spec (NObj cid ch) [cid] outer' a' pd.
 Proof. exact no_leak. Qed.
 Print Assumptions C08_no_leak.
 
@@ -49,23 +49,72 @@ Theorem C08_option_free_is_plain :
     nth_error ct cid = Some c -> option_free c ->
     List.length vs = List.length c.(c_fields) ->
     forallb (fun p => negb p.(p_omit)) (map fst c.(c_fields)) = true ->
-    pack_h ct false (NObj cid (map leaf vs)) [cid] outer a None
+    pack_h ct true false (NObj cid (map leaf vs)) [cid] outer a None
     = Some (POpq 0, PDict (dict_of (plain_out (map fst c.(c_fields)) vs))).
-Proof. exact option_free_is_plain. Qed.
+Proof. intros ct. exact (option_free_is_plain ct true). Qed.
 Print Assumptions C08_option_free_is_plain.
+
+(* ---- codec path: BasicEncoder(cls, default_dialect=dd).encode(x) ---- *)
+Definition C08_codec_full : Prop :=
+  forall (ct: list cls) (n: node) (cid: nat) (dd: option ns),
+    to_dict_codec ct true n cid dd <> None -> to_dict_codec ct false n cid dd = to_dict_codec ct true n cid dd.
+
+(* proved for dataclass fields that are not unions (the codec's static dispatch over union members is
+   known finding codec-union-static-dispatch of C02/C15) and vals_ok at every node *)
+Theorem C08_codec_partial :
+  forall (ct: list cls) (n: node) (cid: nat) (dd: option ns),
+    ok_h ct false n [cid] root_flags no_kw dd = true -> to_dict_codec ct false n cid dd = to_dict_codec ct true n cid dd.
+Proof. exact codec_partial. Qed.
+Print Assumptions C08_codec_partial.
+
+(* every class, mixin or plain, runs with its own Config.dialect and Config over the codec's default
+   dialect pd, without keyword arguments, and hands the same default dialect further down (K14) *)
+Theorem C08_codec_obj :
+  forall (ct: list cls) (spec: bool) (cid: nat) (ch: list node) (outer: flags) (a: kwv) (pd: option ns),
+    pack_h ct false spec (NObj cid ch) [cid] outer a pd =
+    match nth_error ct cid with
+    | Some c =>
+        let o := opts_of c no_kw pd in
+        match go_pack (fun x m => pack_h ct false spec x m c.(c_flags) (avail_of spec o) pd) ch c.(c_fields) with
+        | Some vs => finish spec o (map fst c.(c_fields)) vs
+        | None => None end
+    | None => None end.
+Proof. intros ct. exact (codec_obj ct false eq_refl). Qed.
+Print Assumptions C08_codec_obj.
+
+(* so no option, flag or run-time value of an owner reaches a nested class -- for EVERY nested class *)
+Theorem C08_codec_no_leak :
+  forall (ct: list cls) (spec: bool) (cid: nat) (ch: list node) (outer outer': flags) (a a': kwv) (pd: option ns),
+    pack_h ct false spec (NObj cid ch) [cid] outer a pd = pack_h ct false spec (NObj cid ch) [cid] outer' a' pd.
+Proof. intros ct. exact (codec_no_leak ct false eq_refl). Qed.
+Print Assumptions C08_codec_no_leak.
 
 (* non-vacuity: Outer (omit_none flag, Config.dialect.omit_none) with a mixin Inner that opted in and a
    plain Inner that did not *)
 Definition ex_ct : list cls :=
   [ {| c_mixin := true; c_cfgd := Some {| n_on := T; n_od := U; n_ba := U |}; c_cfg := ns_unset; c_sort := false; c_flags := fl_on;
-       c_fields := [({| p_name := "i"; p_alias := None; p_tynull := false; p_trivial := false; p_default := DNo; p_omit := false |}, [1]);
-                    ({| p_name := "j"; p_alias := None; p_tynull := false; p_trivial := false; p_default := DNo; p_omit := false |}, [2]);
+       c_fields := [({| p_name := "i"; p_alias := None; p_ty := TyPlain; p_trivial := false; p_default := DNo; p_omit := false |}, [1]);
+                    ({| p_name := "j"; p_alias := None; p_ty := TyPlain; p_trivial := false; p_default := DNo; p_omit := false |}, [2]);
                     (fld "x", [])] |};
     {| c_mixin := true; c_cfgd := None; c_cfg := ns_unset; c_sort := false; c_flags := fl_on; c_fields := [(fld "a", [])] |};
     {| c_mixin := false; c_cfgd := None; c_cfg := ns_unset; c_sort := false; c_flags := fl_none; c_fields := [(fld "b", [])] |} ]%nat.
 Definition ex_inst : node := NObj 0 [NObj 1 [NLeaf PNone PNone]; NObj 2 [NLeaf PNone PNone]; NLeaf PNone PNone].
 
 Example C08_nested_nonvacuous :
-  ok_h ex_ct ex_inst [0%nat] root_flags no_kw None = true /\
+  ok_h ex_ct true ex_inst [0%nat] root_flags no_kw None = true /\
   to_dict_h ex_ct false ex_inst 0 no_kw = Some (PDict [("i", PDict []); ("j", PDict [("b", PNone)])]).
+Proof. split; reflexivity. Qed.
+
+(* non-vacuity (codec): default dialect {omit_none: True}; the mixin Inner's own Config.dialect says False *)
+Definition exc_ct : list cls :=
+  [ {| c_mixin := true; c_cfgd := None; c_cfg := ns_unset; c_sort := false; c_flags := fl_on;
+       c_fields := [({| p_name := "i"; p_alias := None; p_ty := TyPlain; p_trivial := false; p_default := DNo; p_omit := false |}, [1]);
+                    ({| p_name := "j"; p_alias := None; p_ty := TyPlain; p_trivial := false; p_default := DNo; p_omit := false |}, [2]);
+                    (fld "x", [])] |};
+    {| c_mixin := true; c_cfgd := Some {| n_on := F; n_od := U; n_ba := U |}; c_cfg := ns_unset; c_sort := false; c_flags := fl_on; c_fields := [(fld "a", [])] |};
+    {| c_mixin := false; c_cfgd := None; c_cfg := ns_unset; c_sort := false; c_flags := fl_none; c_fields := [(fld "b", [])] |} ]%nat.
+Example C08_codec_nonvacuous :
+  ok_h exc_ct false ex_inst [0%nat] root_flags no_kw (Some {| n_on := T; n_od := U; n_ba := U |}) = true /\
+  to_dict_codec exc_ct false ex_inst 0 (Some {| n_on := T; n_od := U; n_ba := U |})
+  = Some (PDict [("i", PDict [("a", PNone)]); ("j", PDict [])]).
 Proof. split; reflexivity. Qed.
